@@ -85,16 +85,19 @@ def diffEdges (w : Nat) (before after : Store) : List Op :=
       else (if eB.src ≠ eA.src then [Op.deleteEdge w eB.src id] else []) ++
            [Op.upsertEdge w id eA.src eA.dst eA.ty]))
 
+/-- the edge keeps its id but is stored under a different source node in `before`. -/
+def edgeMigrated (before : Store) (id : Nat) (eA : EdgeRec) : Bool :=
+  match SMap.find? id before.edges with
+  | some eB => decide (eB.src ≠ eA.src)
+  | none => false
+
 def diffEdgeAtts (w : Nat) (before after : Store) (skip : List AttKey) : List Op :=
   after.edges.filterMap (fun (id, eA) =>
     let b := SMap.find? id before.edgeAtt
     let a := SMap.find? id after.edgeAtt
     -- an edge that keeps its id but changes `from` is deleted and re-inserted, which clears β:
     -- its attachment is re-emitted even when unchanged
-    let migrated := a.isSome && (match SMap.find? id before.edges with
-      | some eB => decide (eB.src ≠ eA.src)
-      | none => false)
-    if b = a && !migrated then none else
+    if b = a && !(a.isSome && edgeMigrated before id eA) then none else
     let key := AttKey.edgeBeta w id
     if skip.contains key then none else some (Op.setAtt key a))
 
